@@ -35,7 +35,7 @@ RULE = (
     "of the clean output, and a clean call on the same closure follows. (3) Schedules: 2-3 threads with drawn "
     "create/use programs start from cold caches under a deterministic line-granularity scheduler (sys.settrace in "
     "src/kio, token passing); the interleaving is a drawn list of <=3 preemptions (global step, target thread); "
-    "additionally ONE preemption is swept over EVERY step of fixed two/three-thread programs (warm and cold caches, two different values of one class) exhaustively, and EVERY PAIR of preemptions (park thread 0 at k1, park thread 1 at k2, resume 0, then 1) is swept over a warm two-thread program whose values hold multi-item arrays. EVERY PAIR of preemption points is also swept over the COLD construction of two readers by two threads (RequestHeader v2 and a class with compact strings), the closures being used afterwards. Additionally one preemption is swept over every step of thread 0 working on class X while thread 1 works on a DIFFERENT class Y (warm encode and decode), for consecutive pairs of a greedy cover of small classes that together contain every field kind (plain, array, tagged), a nullable struct and nested struct arrays. (4) Orders: in 4 (quick) / 14 (thorough) fresh processes the readers and writers of ALL 1629 classes are created and used in a different order (forward, reverse, seeded shuffles); per class up to 12 fixed calls (decode of a populated, a zero, a conforming explicit-default/explicit-null and up to three null-in-non-nullable encodings; encode of the corresponding instances) must have the same outcome (value or exception type) in every order; a difference is bisected to the earlier class that causes it. (5) Repetition: for 40 classes (the 13 tag-bearing messages first; each also goes big/small/big/small through one cached closure, the big value having 9000-byte strings and 400-item tagged arrays) one cached writer and one cached reader are called 10000 (quick) / 300000 (thorough) times each on a populated value; every result must equal the reference encoding / the value; and for 6 classes 70000 (quick) / 600000 (thorough) DISTINCT values (every string, bytes, uuid and wide integer unique) go through one reader/writer pair, each must re-encode to its reference bytes, and the first 64 are decoded again afterwards. Non-trivial = history with a failed call "
+    "additionally ONE preemption is swept over EVERY step of fixed two/three-thread programs (warm and cold caches, two different values of one class) exhaustively, and EVERY PAIR of preemptions (park thread 0 at k1, park thread 1 at k2, resume 0, then 1) is swept over a warm two-thread program whose values hold multi-item arrays. EVERY PAIR of preemption points is also swept over the COLD construction of two readers by two threads (RequestHeader v2 and a class with compact strings), the closures being used afterwards. One preemption is also swept over the COLD construction-and-use of two values of the SAME class by two threads, for the tag-bearing messages and the classes with nullable struct fields. Additionally one preemption is swept over every step of thread 0 working on class X while thread 1 works on a DIFFERENT class Y (warm encode and decode), for consecutive pairs of a greedy cover of small classes that together contain every field kind (plain, array, tagged), a nullable struct and nested struct arrays. (4) Orders: in 4 (quick) / 14 (thorough) fresh processes the readers and writers of ALL 1629 classes are created and used in a different order (forward, reverse, seeded shuffles); per class up to 12 fixed calls (decode of a populated, a zero, a conforming explicit-default/explicit-null and up to three null-in-non-nullable encodings; encode of the corresponding instances) must have the same outcome (value or exception type) in every order; a difference is bisected to the earlier class that causes it. (5) Repetition: for 40 classes (the 13 tag-bearing messages first; each also goes big/small/big/small through one cached closure, the big value having 9000-byte strings and 400-item tagged arrays) one cached writer and one cached reader are called 10000 (quick) / 300000 (thorough) times each on a populated value; every result must equal the reference encoding / the value; and for 6 classes 70000 (quick) / 600000 (thorough) DISTINCT values (every string, bytes, uuid and wide integer unique) go through one reader/writer pair, each must re-encode to its reference bytes, and the first 64 are decoded again afterwards. Non-trivial = history with a failed call "
     "followed by a successful call on the same closure / fault k strictly inside the call / schedule with >=1 "
     "preemption landing inside entity_reader/entity_writer construction or read_entity/write_entity; distinct by hash."
 )
@@ -1107,8 +1107,27 @@ def kind_pair_tasks(ctx: Ctx, shards: int) -> list:
                 name = f"kind-pair-{op}:{a.split(':')[1]}|{b.split(':')[1]}"
                 for lo in range(0, dry.steps, 48):  # small chunks, so that the pool stays balanced
                     tasks.append((name, False, programs, trees_json, lo, min(dry.steps, lo + 48)))
+    # COLD caches, two threads working on two values of the SAME class: one preemption anywhere inside thread 0's
+    # construction + use, for the tag-bearing messages and every class of the kind cover that has a nullable struct field
+    def has_nullable_struct(cd, depth=0):
+        return any((f.kind == "struct" and f.nullable and not f.array) or (f.kind == "struct" and depth < 2 and has_nullable_struct(f.struct, depth + 1))
+                   for f in cd.fields)
+
+    cold_classes = list(dict.fromkeys(tagged + [c for c in cover if has_nullable_struct(D.describe(D.resolve(c)))]))
+    if ctx.quick:
+        cold_classes = cold_classes[::2] + [c for c in cold_classes if has_nullable_struct(D.describe(D.resolve(c)))]
+        cold_classes = list(dict.fromkeys(cold_classes))
+    for a in cold_classes:
+        cd = D.describe(D.resolve(a))
+        trees_json = [(a, tree_to_json(populated_tree(cd, 1, 0))), (a, tree_to_json(populated_tree(cd, 1, 1)))]
+        items = _schedule_items(trees_json)
+        for op in ("enc", "dec"):
+            programs = [[(op, 0)], [(op, 1)]]
+            _f, dry = run_schedule(items, [[(op, 0)], []], [], cold=True)
+            name = f"cold-same-class-{op}:{a.split(':')[1]}"
+            for lo in range(0, dry.steps, 48):
+                tasks.append((name, True, programs, trees_json, lo, min(dry.steps, lo + 48)))
     clear_caches()
-    # balance: the tasks are small; group them round-robin into `shards` lists
     return tasks
 
 
@@ -1116,7 +1135,7 @@ def kind_pair_tasks(ctx: Ctx, shards: int) -> list:
 # --------------------------------------------------------------------------- (4) creation/use orders in fresh processes
 
 
-def _run_order_child(spec: str, only: list[str] | None = None) -> dict:
+def _run_order_child(spec: str, only: list[str] | None = None, flip: int | None = None) -> dict:
     import subprocess
     import sys
     import tempfile
@@ -1124,7 +1143,7 @@ def _run_order_child(spec: str, only: list[str] | None = None) -> dict:
     with tempfile.NamedTemporaryFile(prefix="kv-c19-order-", suffix=".json", delete=False) as fh:
         out = fh.name
     try:
-        cmd = [sys.executable, "-m", "kv.c19_orders", out, spec] + (["only=" + ",".join(only)] if only else [])
+        cmd = [sys.executable, "-m", "kv.c19_orders", out, spec] + (["only=" + ",".join(only)] if only else []) + ([f"flip={flip}"] if flip is not None else [])
         r = subprocess.run(cmd, capture_output=True, text=True, cwd=os.path.dirname(os.path.dirname(os.path.dirname(os.path.abspath(__file__)))))
         if r.returncode != 0:
             raise HarnessError(f"order child {spec[:60]} failed: {r.stderr[-800:]}")
@@ -1174,8 +1193,17 @@ def order_stage(ctx: Ctx, total: Report) -> None:
                 if sig in reported:  # one minimised report per signature: the bisection costs ~12 fresh processes
                     continue
                 reported.add(sig)
+                # does the class alone already depend on which of ITS closures (reader / writer) is built first?
+                alone0 = _run_order_child("list:" + path, flip=0)[path].get(label)
+                alone1 = _run_order_child("list:" + path, flip=1)[path].get(label)
+                if alone0 != alone1:
+                    rep.add_failure(Failure(sig + ":reader-writer-creation-order",
+                                            f"{path} {label}: alone in a fresh process the outcome is {str(alone0)[:160]!r} when the reader is built before the "
+                                            f"writer (or the other way round, by class) and {str(alone1)[:160]!r} in the opposite order",
+                                            {"kind": "order-self", "class": path, "label": label}, 1))
+                    continue
                 # which of the two orders is the deviating one, and which earlier class causes it?
-                alone = _run_order_child("list:" + path)[path].get(label)
+                alone = alone0
                 bad_spec = spec if got != alone else base_spec
                 culprit = _bisect_culprit(bad_spec, path, label, alone)
                 msg = (f"{path} {label}: outcome {want[:160]!r} in creation order {base_spec!r} but {got[:160]!r} in order {spec!r}; "
@@ -1500,6 +1528,10 @@ def replay(case):
         return repetition(case["class"], case["n"])
     if kind == "flood":
         return flood(case["class"], case["n"])
+    if kind == "order-self":
+        a0 = _run_order_child("list:" + case["class"], flip=0)[case["class"]].get(case["label"])
+        a1 = _run_order_child("list:" + case["class"], flip=1)[case["class"]].get(case["label"])
+        return [] if a0 == a1 else [("order:creation-order-within-class", f"{case['class']} {case['label']}: {str(a0)[:200]!r} vs {str(a1)[:200]!r}")]
     if kind == "order":
         alone, after = order_pair_differs(case.get("first"), case["then"], case["label"])
         if alone != after:
